@@ -6,6 +6,7 @@ import (
 	"encoding/hex"
 	"fmt"
 	"reflect"
+	"strings"
 	"testing"
 
 	"pgregory.net/rapid"
@@ -17,7 +18,7 @@ import (
 	"verif/harness/internal/ref/enc"
 )
 
-const ruleC22 = "sequences of 1-12 of the 12 registered wire messages with reflection-generated bodies, framed with EncodeMessage and concatenated; chunkings drawn from {all-in-one, 1-byte chunks, random cut points, a cut inside a length prefix, a cut inside the message id, a cut right after k complete frames plus a partial one}; each chunk is appended to the connection buffer and decoded as the read loop does, with a handler that keeps up or lags 1, 2, 5 or 31 messages behind (framed messages wait in the receive queue while later reads are written into the buffer and must not change); hostile streams: a valid stream with one frame replaced by {length 0..3, length > max, unknown id, body truncated, body extended, id truncated} or random bytes; oracle: delivered messages == sent messages in order (same type, same encoding), buffer empty at the end; hostile frame => one of the documented disconnect errors or a decode, nothing delivered out of order or altered, never a panic; non-trivial = some chunk ends with >=1 complete frame followed by a partial frame, or the stream is hostile; distinct by (stream, chunking)"
+const ruleC22 = "sequences of 1-12 of the 12 registered wire messages with reflection-generated bodies, framed with EncodeMessage and concatenated; chunkings drawn from {all-in-one, 1-byte chunks, random cut points, a cut inside a length prefix, a cut inside the message id, a cut right after k complete frames plus a partial one}; each chunk is appended to the connection buffer and decoded as the read loop does, with a handler that keeps up or lags 1, 2, 5 or 31 messages behind (framed messages wait in the receive queue while later reads are written into the buffer and must not change); hostile streams: a valid stream with one frame replaced by {length 0..3, length > max, unknown id, body truncated, body extended, id truncated} or random bytes; oracle: delivered messages == sent messages in order (same type, same encoding), buffer empty at the end; hostile frame => one of the documented disconnect errors (a body with trailing bytes or cut short must disconnect, for every message type including the empty-bodied ones), otherwise possibly a decode, nothing delivered out of order or altered, never a panic; non-trivial = some chunk ends with >=1 complete frame followed by a partial frame, or the stream is hostile; distinct by (stream, chunking)"
 
 var disconnectErrs = map[error]bool{
 	gnet.ErrDisconnectInvalidMessageLength:   true,
@@ -294,6 +295,7 @@ func TestC22_Hostile(t *testing.T) {
 		class := rapid.SampledFrom([]string{"short_length", "over_max", "unknown_id", "body_truncated", "body_extended", "id_truncated", "random_frame", "garbage_stream"}).Draw(t, "hostile")
 		expectLenErr := false
 		idCollides := false
+		bodyCut := false
 		overAt, overBy := -1, uint32(0)
 		for i := 0; i < n; i++ {
 			m, _ := genMessageEncodable(t)
@@ -341,6 +343,9 @@ func TestC22_Hostile(t *testing.T) {
 			case "body_truncated":
 				if len(body) > 0 {
 					body = body[:rapid.IntRange(0, len(body)-1).Draw(t, "keep")]
+					// (a message whose last field is tagged omitempty has proper prefixes that are complete encodings
+					// themselves - the introduction without its optional part; only the other types must fail)
+					bodyCut = !hasOmitEmpty(m)
 				}
 				stream = append(stream, frame(id, body)...)
 			case "body_extended":
@@ -394,6 +399,15 @@ func TestC22_Hostile(t *testing.T) {
 		if expectLenErr && len(got) > len(want) {
 			t.Fatalf("[%s] %d messages delivered but only %d precede the invalid length", class, len(got), len(want))
 		}
+		if class == "body_extended" && err == nil {
+			t.Fatalf("a frame whose body carries trailing bytes after a complete message was accepted (%d messages delivered, no disconnect)\n stream=%x", len(got), stream)
+		}
+		if class == "body_truncated" && bodyCut && err == nil {
+			t.Fatalf("a frame whose body is a proper prefix of a message encoding was accepted (%d messages delivered, no disconnect)\n stream=%x", len(got), stream)
+		}
+		if (class == "body_extended" || (class == "body_truncated" && bodyCut)) && len(got) > len(want) {
+			t.Fatalf("[%s] %d messages delivered but only %d precede the malformed frame\n stream=%x", class, len(got), len(want), stream)
+		}
 		if class == "unknown_id" && !idCollides && err != gnet.ErrDisconnectUnknownMessage {
 			t.Fatalf("unknown message id gave %v\n stream=%x", err, stream)
 		}
@@ -428,4 +442,18 @@ func FuzzC22_Stream(f *testing.F) {
 			t.Fatalf("undocumented error %v", err)
 		}
 	})
+}
+
+// hasOmitEmpty: does the message struct carry a field tagged enc:",omitempty"?
+func hasOmitEmpty(m interface{}) bool {
+	tp := reflect.TypeOf(m)
+	for tp.Kind() == reflect.Ptr {
+		tp = tp.Elem()
+	}
+	for i := 0; i < tp.NumField(); i++ {
+		if strings.Contains(tp.Field(i).Tag.Get("enc"), "omitempty") {
+			return true
+		}
+	}
+	return false
 }
